@@ -381,5 +381,5 @@ def parts(tier):
     q = tier == "quick"
     return [
         {"name": "examples-and-corpus", "kind": "fixed", "cases": _fixed_cases},
-        {"name": "random", "kind": "hypothesis", "strategy": s_case, "examples": 2400 if q else 16 * 4000},
+        {"name": "random", "kind": "hypothesis", "strategy": s_case, "examples": 2400 if q else 16 * 2500},
     ]
